@@ -107,10 +107,13 @@ def design_and_scenarios(workdir, module, cfg, scen_path, workers=None, timeout=
     return dict(states=dist, transitions=gen, scenarios=n)
 
 
-def replay(vh, family, scen_path, trace_path, seed, workers=None, extra=()):
+def replay(vh, family, scen_path, trace_path, seed, workers=None, extra=(), env=None):
     cmd = [vh, 'replay', '--family', family, '--scenarios', scen_path, '--out', trace_path,
            '--seed', str(seed), '--workers', str(workers or NCPU)] + list(extra)
-    p = subprocess.run(cmd, capture_output=True, text=True, env=GOENV)
+    e = dict(GOENV)
+    if env:
+        e.update(env)
+    p = subprocess.run(cmd, capture_output=True, text=True, env=e)
     if p.returncode != 0:
         raise Infra('replay failed:\n' + p.stdout[-2000:] + p.stderr[-4000:])
     return p.stdout
